@@ -1,5 +1,5 @@
 SPECIFICATION Spec
-CONSTANTS MaxCalls = 5  MaxIO = 8  TwoFaults = FALSE  MaxPolicyChanges = 1  Gen = FALSE
+CONSTANTS MaxCalls = 5  MaxIO = 8  TwoFaults = FALSE  MaxPolicyChanges = 1  Gen = FALSE  FreshTriad = TRUE
 INVARIANT NoViolation
 INVARIANT OnlyLibraryFailures
 INVARIANT CloseResetsNoHist
